@@ -117,6 +117,7 @@ pub fn run(cases_path: &str, out_path: &str, tier: &str, seed: u64) {
         let mut openers: Vec<(&str, usize)> = Vec::new();
         if cfg["enc"]["kind"] != "none" {
             openers.push(("session", 0));
+            if cfg["enc"]["kind"] == "v1" { openers.push(("session_streaming", 0)); }
             for i in 0..cfg["passwords"].as_array().map(|a| a.len()).unwrap_or(0) {
                 openers.push(("password", i));
             }
